@@ -81,10 +81,16 @@ def r01_3(facts, res):
     for f in facts.fns.values():
         if f["crate"] != "xml_info" or "body" not in f or f.get("derived"):
             continue
-        # constructors: the named ones and every function that returns an information item
+        # constructors: the named ones, every function that returns an information item, and the private pieces such a function
+        # is split into (`XmlElement::node` -> `push_content`)
         ret = f.get("sig", "").split("->")[-1] if "->" in f.get("sig", "") else ""
-        if "::tests::" in f["path"] or not (f["path"].split("::")[-1] in CONSTRUCTOR_FNS or "Xml" in ret):
+        if "::tests::" in f["path"]:
             continue
+        if not (f["path"].split("::")[-1] in CONSTRUCTOR_FNS or "Xml" in ret):
+            r = facts.root_of(f)
+            rret = r.get("sig", "").split("->")[-1] if "->" in r.get("sig", "") else ""
+            if r["id"] == f["id"] or not (r["path"].split("::")[-1] in CONSTRUCTOR_FNS or "Xml" in rret):
+                continue
         for n in walk(f["body"]):
             if n.get("k") != "Match" or n.get("src") != "Normal":
                 continue
